@@ -16,6 +16,10 @@ func init() {
 // MulByteSliceLE treats in and out as arrays of Ts stored in
 // little-endian format, and sets each out<T>[i] to c.Times(in<T>[i]).
 func MulByteSliceLE(c T, in, out []byte) {
+	if verifPortable {
+		mulByteSliceLEGeneric(c, in, out)
+		return
+	}
 	mulByteSliceLE(c, in, out, hasSSSE3)
 }
 
@@ -41,6 +45,10 @@ func mulByteSliceLE(c T, in, out []byte, useSSSE3 bool) {
 // little-endian format, and adds c.Times(in<T>[i]) to out<T>[i], for
 // each i.
 func MulAndAddByteSliceLE(c T, in, out []byte) {
+	if verifPortable {
+		mulAndAddByteSliceLEGeneric(c, in, out)
+		return
+	}
 	mulAndAddByteSliceLE(c, in, out, hasSSSE3)
 }
 
